@@ -336,9 +336,15 @@ fn run_l<L: Language + 'static>(c: &PlantCase, obs: &mut Obs) -> Result<(), Stri
         }
     }
     // the instance must be represented beforehand (possibly only up to equality)
+    // (by construction it is: the inserted term is the instance with subterms replaced by terms they were united with, or
+    // with the arguments of a leaf permuted by a symmetry asserted through the pre-unions)
     let Some(before) = lookup_tm::<L, ()>(&eg, &c.inst_l, &nm) else {
-        obs.label("instance-not-represented");
-        return Ok(());
+        return Err(format!(
+            "the instance {} is represented through the unions {:?} of subterms of the inserted term {}, but it cannot be looked up before rewriting: its firing cannot be observed",
+            c.inst_l.render(&nm),
+            c.pre_unions.iter().map(|(a, b)| format!("{} = {}", a.render(&nm), b.render(&nm))).collect::<Vec<_>>(),
+            c.inserted.render(&nm)
+        ));
     };
     let mut rules: Vec<Rewrite<L, ()>> = vec![Rewrite::new("planted", &render_pat(&c.lhs, &nm), &render_pat(&c.rhs, &nm))];
     if let Some((l2, r2)) = &c.second_rule {
@@ -413,6 +419,10 @@ pub struct SymPlant {
     pub late_gen: bool,
     /// the term is inserted before the symmetries are asserted (it then has to be re-canonicalised)
     pub insert_first: bool,
+    /// with a merge: the generators are asserted on the *other* class (the leaf h), so that L's class learns them only
+    /// through the merge
+    #[serde(default)]
+    pub gens_on_other: bool,
 }
 
 fn sym_leaf(k: usize, p: &[u8]) -> Tm {
@@ -429,7 +439,7 @@ fn run_sym(c: &SymPlant, obs: &mut Obs) -> Result<(), String> {
     // pattern slots: $k $l $m ... (names 10..)
     let pslots: Vec<u8> = (10..10 + k as u8).collect();
     let pslots_pi: Vec<u8> = c.pi.iter().map(|x| 10 + *x).collect();
-    let (lhs, rhs, inserted, inst_r): (Tm, Tm, Tm, Tm) = match c.kind % 4 {
+    let (lhs, rhs, inserted, inst_r): (Tm, Tm, Tm, Tm) = match c.kind % 6 {
         0 => (Tm::node("p", vec![kk(pvar("a")), kk(pvar("a"))]), Tm::node("w", vec![kk(pvar("a"))]), Tm::node("p", vec![kk(l_id.clone()), kk(l_pi.clone())]), Tm::node("w", vec![kk(l_id.clone())])),
         1 => (
             Tm::node("t3", vec![kk(pvar("a")), kk(pvar("b")), kk(pvar("a"))]),
@@ -442,6 +452,19 @@ fn run_sym(c: &SymPlant, obs: &mut Obs) -> Result<(), String> {
             Tm::node("w", vec![kk(Tm::node("w", vec![kk(pvar("a"))]))]),
             Tm::node("p", vec![kk(Tm::node("w", vec![kk(l_pi.clone())])), kk(l_id.clone())]),
             Tm::node("w", vec![kk(Tm::node("w", vec![kk(l_id.clone())]))]),
+        ),
+        4 => (
+            // the leaf two levels below a node that anchors one of its slots: the classes in between have to inherit the symmetry
+            Tm::node("q2", vec![Arg::S(10), kk(Tm::node("w", vec![kk(sym_leaf(k, &pslots_pi))]))]),
+            Tm::node("w", vec![kk(sym_leaf(k, &pslots))]),
+            Tm::node("q2", vec![Arg::S(0), kk(Tm::node("w", vec![kk(l_id.clone())]))]),
+            Tm::node("w", vec![kk(l_id.clone())]),
+        ),
+        5 => (
+            Tm::node("p", vec![kk(Tm::leaf("v", &[10])), kk(Tm::node("w", vec![kk(Tm::node("w", vec![kk(sym_leaf(k, &pslots_pi))]))]))]),
+            Tm::node("w", vec![kk(sym_leaf(k, &pslots))]),
+            Tm::node("p", vec![kk(Tm::leaf("v", &[0])), kk(Tm::node("w", vec![kk(Tm::node("w", vec![kk(l_id.clone())]))]))]),
+            Tm::node("w", vec![kk(l_id.clone())]),
         ),
         _ => (
             Tm::node("p", vec![kk(sym_leaf(k, &pslots)), kk(sym_leaf(k, &pslots_pi))]),
@@ -457,9 +480,17 @@ fn run_sym(c: &SymPlant, obs: &mut Obs) -> Result<(), String> {
     }
     let base = add(&mut eg, &l_id);
     let n_early = if c.late_gen && c.merge != 0 && !c.gens.is_empty() { c.gens.len() - 1 } else { c.gens.len() };
+    let on_other = c.gens_on_other && c.merge != 0 && (k == 3 || k == 4);
+    let other_leaf = |p: &[u8]| Tm::leaf(if k == 3 { "h3" } else { "h4" }, &p.iter().map(|x| *x as Name).collect::<Vec<_>>());
     for g in &c.gens[..n_early] {
-        let b = add(&mut eg, &sym_leaf(k, g));
-        eg.union(&base, &b);
+        if on_other {
+            let a = add(&mut eg, &other_leaf(&id));
+            let b = add(&mut eg, &other_leaf(g));
+            eg.union(&a, &b);
+        } else {
+            let b = add(&mut eg, &sym_leaf(k, g));
+            eg.union(&base, &b);
+        }
     }
     if c.merge != 0 && (k == 3 || k == 4) {
         let names: Vec<Name> = id.iter().map(|x| *x as Name).collect();
@@ -503,7 +534,12 @@ fn run_sym(c: &SymPlant, obs: &mut Obs) -> Result<(), String> {
     if c.gens.len() >= 2 {
         obs.label("two-or-more-generators");
     }
-    if c.kind % 4 == 3 {
+    if on_other {
+        obs.label("symmetry-only-through-the-merge");
+    }
+    if c.kind % 6 >= 4 {
+        obs.label("leaf-two-levels-below-an-anchor");
+    } else if c.kind % 6 == 3 {
         obs.label("permuted-leaf-pattern");
     } else {
         obs.label("repeated-variable");
@@ -513,8 +549,8 @@ fn run_sym(c: &SymPlant, obs: &mut Obs) -> Result<(), String> {
 }
 
 fn sym_strategy() -> BoxedStrategy<SymPlant> {
-    (proptest::collection::vec(any::<u16>(), 0..60), any::<u8>(), any::<u8>(), any::<bool>(), any::<bool>())
-        .prop_map(|(ch, kind, merge, late_gen, insert_first)| {
+    (proptest::collection::vec(any::<u16>(), 0..60), any::<u8>(), any::<u8>(), any::<bool>(), any::<bool>(), any::<bool>())
+        .prop_map(|(ch, kind, merge, late_gen, insert_first, gens_on_other)| {
             let mut src = Src::new(&ch);
             // mostly 3 and 4 slots; 5 slots (up to 120 group elements to enumerate per match attempt) in one case of eight
             let k = if src.pick(8) == 0 { 5 } else { 3 + src.pick(2) };
@@ -531,7 +567,7 @@ fn sym_strategy() -> BoxedStrategy<SymPlant> {
             }
             let cl: Vec<Vec<u8>> = super::c10::closure(k, &gens).into_iter().collect();
             let pi = cl[src.pick(cl.len())].clone();
-            SymPlant { k: k as u8, gens, pi, kind: kind % 4, merge: merge % 3, late_gen, insert_first }
+            SymPlant { k: k as u8, gens, pi, kind: kind % 6, merge: merge % 3, late_gen, insert_first, gens_on_other }
         })
         .boxed()
 }
@@ -573,7 +609,7 @@ pub fn property(tier: Tier) -> Property {
         run: run_sym,
         panic_is_violation: false,
         render: |c: &SymPlant| format!("{:?}", c),
-        rule: "a 3-5 slot leaf made symmetric under a group generated by 1-3 permutations (asserted as unions with permuted copies; optionally the class is then merged with another class in either direction, optionally one generator is asserted only after the merge), used twice in the inserted term, the second time permuted by a random element of the generated group; left sides (p ?a ?a), (t3 ?a ?b ?a), (p (w ?a) ?a), or the leaf written out twice with permuted pattern slots; the right-side instance must be represented and equal to the inserted term after one apply_rewrites; non-trivial = the group is non-trivial and the second use is really permuted; distinct by case",
+        rule: "a 3-5 slot leaf made symmetric under a group generated by 1-3 permutations (asserted as unions with permuted copies; optionally the class is then merged with another class in either direction, optionally one generator is asserted only after the merge), used twice in the inserted term, the second time permuted by a random element of the generated group; left sides (p ?a ?a), (t3 ?a ?b ?a), (p (w ?a) ?a), the leaf written out twice with permuted pattern slots, or the permuted leaf two / three levels below a node that anchors one of its slots (the generators optionally asserted on the other class, so that the leaf's class and the classes above it learn the symmetry only through the merge); the right-side instance must be represented and equal to the inserted term after one apply_rewrites; non-trivial = the group is non-trivial and the second use is really permuted; distinct by case",
         case_timeout_s: tier.pick(30, 120),
         exhaustive: false,
     }));
